@@ -5,4 +5,4 @@ cd /verif
 ids="$@"
 [ -z "$ids" ] && ids=$(ls seeded | sed 's/_.*//' | sort -u)
 for id in $ids; do for d in seeded/${id}_*; do echo $d; done; done | \
-  xargs -P 4 -I{} sh -c 'python3 tools/seedcheck.py {} 2>&1 | grep -v WARNING | tail -1'
+  xargs -P 4 -I{} sh -c 'python3 tools/seedcheck.py {} --fast 2>&1 | grep -v WARNING | tail -1'
